@@ -482,14 +482,23 @@ def r1_4(ctx, rep):
         ended = False
         if path.events and path.events[-1][0] == "tok" and tuple(path.events[-1][1]) == ("EOF",):
             ended = True
+        excluded = set()
         for pos, fact in path.facts:
             if pos == n and fact == ("at_end", True):
                 ended = True
+            if pos == n and fact[0] in ("nonext", "nomatch"):
+                excluded |= set(fact[1])
+        # equivalent form: the next token is none of the kinds the scanner can produce
+        producible = ({k for k, _ in ctx.sm.table.values()} | {"IDENTIFIER", "NUMBER", "STRING", "BQNAME", "PYTHON_LITERAL"}) - {"<raise>"}
+        missing_kinds = sorted(producible - excluded)
+        if not ended and excluded and not missing_kinds:
+            ended = True
         construct = "every accepting path of parse ends with an end-of-input check"
         rep.check(ended, "R1.4", fn.where, fn.qual, construct,
                   "end-of-input test (at_end()/consume EOF) after the last sub-parse; failing branch raises",
                   f"accepting path {[(e[0], e[1]) for e in path.events]} returns without testing for end of "
-                  "input: left-over tokens are silently dropped")
+                  "input: left-over tokens are silently dropped"
+                  + (f" (the tests on the next token do not cover the kinds {missing_kinds})" if excluded else ""))
         holes = [x for x in G.leaves(val)]
         rep.check(val[0] == "hole", "R1.4", fn.where, fn.qual, "parse returns the result of its sub-parse",
                   G.show(val), f"parse returns {G.show(val)}")
@@ -797,6 +806,35 @@ def r1_8(ctx, rep):
     obl(rep, f, guards[0] if guards else f.node, "R1.8", ok,
         "char: raises when the input ends before the closing quote (guard dominates the token)",
         "", "unterminated string is not refused before the STRING token is emitted")
+    # backquote(): a BQNAME token is emitted only after the closing back-quote was seen and consumed
+    f = prog.fn("scanner.Scanner.backquote")
+    c = cfg_of(f)
+    loops = [n for n in walk_local(f.node) if isinstance(n, ast.While)]
+    adds = [x for x in calls_in(f.node) if dotted(x.func) == "self.add_token"]
+    if len(loops) != 1 or len(adds) != 1:
+        raise AnalysisError("Scanner.backquote: expected one scanning loop and one add_token")
+    lp = loops[0]
+    exits = []
+    if isinstance(lp.test, ast.Constant) and lp.test.value is True:
+        for i in ast.walk(lp):
+            if isinstance(i, ast.If) and any(isinstance(b, ast.Break) for b in i.body):
+                exits.append(unparse(i.test))
+    else:
+        exits.append("not (" + unparse(lp.test) + ")")
+    sees_quote = any("self.peek() == '`'" in e or "self.peek() != '`'" in e for e in exits)
+    can_exit_at_end = any("at_end" in e for e in exits)
+    guards = [i for i in walk_local(f.node) if isinstance(i, ast.If) and "at_end" in unparse(i.test) and block_raises(i.body)]
+    guarded = bool(guards) and c.dominates(c.node_of(guards[0]), c.node_of(adds[0]))
+    ok = sees_quote and (not can_exit_at_end or guarded)
+    obl(rep, f, lp, "R1.8", ok, "backquote: the scanning loop ends only at a closing back-quote (or a raising end-of-input guard dominates the token)",
+        f"loop exits: {exits}", f"the loop can end at the end of the input ({exits}) and nothing raises: an unterminated back-quoted name is accepted")
+    after = f.body[f.body.index(lp) + 1:] if lp in f.body else []
+    closing = [s_ for s_ in after if isinstance(s_, ast.Expr) and isinstance(s_.value, ast.Call) and dotted(s_.value.func) in ("self.advance",)]
+    soft = [s_ for s_ in after if isinstance(s_, ast.Expr) and isinstance(s_.value, ast.Call) and dotted(s_.value.func) == "self.match"]
+    ok = len(closing) == 1 and not soft and after.index(closing[0]) < [i for i, s_ in enumerate(after) if any(x is adds[0] for x in ast.walk(s_))][0]
+    obl(rep, f, closing[0] if closing else (soft[0] if soft else lp), "R1.8", ok,
+        "backquote: the closing back-quote is consumed unconditionally before the token is emitted (at the end of the input advance() fails: rejection)",
+        "", "the closing back-quote is consumed by a test whose result is ignored: a missing closing quote is tolerated")
     # identifier continuation set
     f = prog.fn("scanner.Scanner.identifier")
     loops = [n for n in walk_local(f.node) if isinstance(n, ast.While)]
